@@ -67,33 +67,14 @@ def bracket_depth(src):
 
 
 def rq_doc_wf(text):
-    """C16's (strict) well-formedness of an RQ document (python mirror of Model/RqWf.v rq_wf, cross-validated by C16 on every
-    run): True / False, or None when the document is not in the normal form the mirror reads"""
+    """the staged-API precondition of an RQ document: C16's (strict) rq_wf (Model/RqWf.v) and rq_agg_ok (Model/RqAgg.v), through
+    C16's python mirrors: True / False, or None when the document is not in the normal form the mirror reads"""
     try:
-        return bool(c16_wf.rq_wf(rqcoq.norm(json.loads(text))))
+        q = rqcoq.norm(json.loads(text))
+        from .c16 import agg_overlaps          # mirror of Model/RqAgg.v (C16 cross-validates it against Coq)
+        return bool(c16_wf.rq_wf(q)) and not agg_overlaps(q)
     except Exception:
         return None
-
-
-def rq_aggregate_cycle(text):
-    found = []
-
-    def walk(v):
-        if isinstance(v, dict):
-            ag = v.get("Aggregate")
-            if isinstance(ag, dict) and isinstance(ag.get("partition"), list) and isinstance(ag.get("compute"), list):
-                if set(x for x in ag["partition"] if isinstance(x, int)) & set(x for x in ag["compute"] if isinstance(x, int)):
-                    found.append(1)
-            for x in v.values():
-                walk(x)
-        elif isinstance(v, list):
-            for x in v:
-                walk(x)
-    try:
-        walk(json.loads(text))
-    except ValueError:
-        pass
-    return bool(found)
 
 
 OP_ARITIES = {}      # operator name -> numbers of arguments seen in the RQs prqlc emitted in this run (filled by run())
@@ -121,17 +102,15 @@ def rq_operator_names(text, with_arity=False):
 
 
 # input predicates of the OPEN findings only (the predicates of fixed findings were removed with the fix: nothing can
-# be classified as F7 F15 F29 N1 N2 N5 N6 N7 N8 N9 N10 N11 N12 N13 N14 N15 N17 F9 H1 H2 any more)
+# be classified as F7 F15 F29 N1 N2 N5 N6 N7 N8 N9 N10 N11 N12 N13 N14 N15 N17 N18 F9 H1 H2 any more)
 PRED = {
-    # C12-N3 as a precondition (c12_rq_lookups_total_under_wf): a structurally mutated RQ that does NOT satisfy rq_wf
+    # C12-N3 as a precondition (c12_rq_staged_precondition): a structurally mutated RQ that does NOT satisfy rq_wf && rq_agg_ok
     "mutated-rq-json": lambda c: (c["entry"] == "json_rq" and c.get("family", "").startswith("json:") and c.get("family") not in ("json:orig", "json:int:lit")
                                   and rq_doc_wf(c["src"]) is not True),
     # C12-N16: an RQ (from JSON) with an operator whose name does not start with `std.`
     "rq-operator-without-std-prefix": lambda c: c["entry"] == "json_rq" and (
         any(not n.startswith("std.") for n in rq_operator_names(c["src"]))
         or any(n in OP_ARITIES and k not in OP_ARITIES[n] for n, k in rq_operator_names(c["src"], with_arity=True))),
-    # C12-N18: an Aggregate that partitions by one of the columns it aggregates (cyclic)
-    "rq-aggregate-partition-cycle": lambda c: c["entry"] == "json_rq" and rq_aggregate_cycle(c["src"]),
     "mutated-pl-json": lambda c: c["entry"] == "json_pl" and c.get("family", "").startswith("json:") and c.get("family") not in ("json:orig", "json:int:lit"),
     "deep-or-long": lambda c: True,   # refined by thresholds below
     # C12-H3: at least 10 named arguments whose value opens a parenthesis (`x:(`), nested
@@ -160,7 +139,7 @@ def make_classifier(findings):
                 return None
             for fd in fs:
                 if fd.get("abort") == "stack-overflow":
-                    if fd.get("pred") in ("mutated-rq-json", "mutated-pl-json", "rq-aggregate-partition-cycle"):
+                    if fd.get("pred") in ("mutated-rq-json", "mutated-pl-json"):
                         if PRED[fd["pred"]](case):
                             return fd["id"]
                     elif "thresholds" in fd and not case["entry"].startswith("json"):
